@@ -192,7 +192,7 @@ CLAIMED = {
          "witness flag / Lamport timestamp as on a full-history node PROVIDED roots_sufficient (the parent-round witnesses it strongly sees are known to the reset node, the "
          "coordinate comparisons agree). The unconditional statement is REFUTED on the faithful model (C13_roots_insufficient_refuted: 49-action history found and minimised "
          "on the real cores by harness/cmd/resetwit, replayed by vm_compute, and shown to violate exactly roots_sufficient) = known finding C13-roots-insufficient. The "
-         "block-level statement after the reset is a Definition (not proved). Correspondence: every fast-forward of the gossip histories is replayed on the model (the "
+         "block-level continuity statement is a Definition (not proved). After a reset (any continuation): deliveries have consecutive indexes from the anchor, round-received strictly increasing above the anchor, the admission invariant holds with the frame events as exempt set, index windows only grow, no fork; frame_shape is DERIVED for every frame an honest static server caches or serves. Correspondence: every fast-forward of the gossip histories is replayed on the model (the "
          "received block/frame/event bodies vs the model of the serving node, then the reset itself), and reset nodes are compared with the model on all observables after "
          "every action like any other node (0 differences); oracle: reset nodes vs full-history nodes (blocks, hashes, validator-set history, rounds) and, on reset nodes, GetPeerSet(r) for every round r against the node's own reported history",
          "partial: continuity only under roots_sufficient; BadgerStore.Reset, checkFastForward (C12/C14) and the wire fields of frame events (C15) are outside this model; "
